@@ -91,6 +91,9 @@ pub struct ServerScn {
     pub drop_stream_at: Option<u64>,
     pub preempt_permille: u32,
     pub subscriber: u8,
+    /// Run for simulated years (deadlines beyond a single timer's span).
+    #[serde(default)]
+    pub long: bool,
 }
 
 impl ServerScn {
@@ -251,6 +254,21 @@ pub fn gen(rng: &mut Rng, focus: SFocus) -> ServerScn {
         }
     }
     let subscriber = if focus == SFocus::Extreme { rng.below(3) as u8 } else { 0 };
+    let long = focus == SFocus::Extreme && rng.chance(250);
+    if long {
+        // one or two requests with deadlines years ahead whose handlers never finish
+        script.truncate(2);
+        handlers.truncate(2);
+        for a in script.iter_mut() {
+            a.delay_ms = 0;
+            a.kind = PeerKind::Req { id: IdRef::Fresh, deadline: Dl::Secs(*rng.pick(&[400u64, 700, 1278, 1500, 3650, 10_950]) * 86_400), sampled: false };
+        }
+        for h in handlers.iter_mut() {
+            h.steps = vec![HStep::Never];
+            h.run = RunMode::Execute;
+        }
+        stalls.clear();
+    }
     let mut faults = vec![];
     if focus == SFocus::Faults {
         use crate::transport::{FaultAt, Op2};
@@ -264,18 +282,22 @@ pub fn gen(rng: &mut Rng, focus: SFocus) -> ServerScn {
     ServerScn {
         resp_buf,
         limit,
-        link: LinkCfg { cap, coupled, faults },
+        link: LinkCfg { cap, coupled, sticky: faults.is_empty() || rng.chance(600), faults },
         stalls,
         script,
         handlers,
         eof_at_end: true,
-        drop_stream_at: if focus != SFocus::Shutdown && rng.chance(60) { Some(rng.range(0, 20)) } else { None },
-        preempt_permille: if subscriber != 0 { 0 } else { *rng.pick(&[0u32, 0, 60, 250]) },
+        drop_stream_at: if focus != SFocus::Shutdown && !long && rng.chance(60) { Some(rng.range(0, 20)) } else { None },
+        preempt_permille: if subscriber != 0 || long { 0 } else { *rng.pick(&[0u32, 0, 60, 250]) },
         subscriber,
+        long,
     }
 }
 
 pub fn horizon_ms(s: &ServerScn) -> u64 {
+    if s.long {
+        return crate::profiles::client::LONG_HORIZON_MS;
+    }
     let mut t = 0u64;
     let mut h = 100u64;
     for a in &s.script {
